@@ -17,7 +17,7 @@
    see notes/C10.md for what is still open. *)
 From Coq Require Import List ZArith.
 From RtoscV Require Import Pretty.Tok Pretty.FloatFmt Pretty.PrintModel Pretty.ScanModel
-  Pretty.PrettyProofs Pretty.RangeProofs Pretty.RunProofs Pretty.ListProofs Pretty.PrettyRegress.
+  Pretty.PrettyProofs Pretty.RangeProofs Pretty.RunProofs Pretty.ListProofs Pretty.ArrayProofs Pretty.PrettyRegress.
 Import ListNotations.
 Local Open Scope Z_scope.
 
@@ -116,6 +116,49 @@ Theorem C10_roundtrip_any_nonvacuous :
   exists text w, print_arg_vals {| lossless := true; prec := 2; linelength := 20; compress := true |}
     ([VT; VT; VT; VT; VT; VI 7] ++ map VI [1; 2; 3; 4; 5; 6] ++ map VH [10; 20; 30; 40; 50]) 0 = Some (text, w).
 Proof. exact roundtrip_any_example. Qed.
+
+(* arrays: a list that is one array [e1 e2 ...] of values of one type (true and
+   false count as one type; the empty array included), printed with any
+   options - so runs inside the array become "NxV" and "a ... b" and line
+   breaks fall between elements: the returned count is the text length, the
+   checker accepts with 1 + the number of element slots, the scanner consumes
+   the whole text and writes an array header whose element count is the number
+   of slots that follow and whose type is the type of the last element, and
+   those slots expand to the original elements.
+   Outside: arrays among other values of a list (the checker looks for the left
+   neighbour of a later range in the text of the array), nested arrays. *)
+Theorem C10_array_roundtrip_partial : forall (dec2f dec2d : list Z -> Z) o ty elems text w,
+  Forall goodc elems -> homog elems -> Z.of_nat (length elems) + 1 < 2 ^ 31 ->
+  print_arg_vals o (VArr ty (Z.of_nat (length elems)) :: elems) 0 = Some (text, w) ->
+  exists ty' slots,
+    w = len text /\
+    count_printed_arg_vals dec2f dec2d text = Ok (true, 1 + Z.of_nat (length slots)) /\
+    scan_arg_vals dec2f dec2d text (1 + Z.of_nat (length slots))
+    = Ok (VArr ty' (Z.of_nat (length slots)) :: slots, []) /\
+    expand slots = Some elems /\ ty' = last_type elems.
+Proof. exact roundtrip_array. Qed.
+
+(* the bracketed text forms themselves, after any value and before anything that
+   may follow a value: both recognisers read "[" items "]" when the item types
+   pass the checker's array type test *)
+Theorem C10_array_reads_partial : forall (dec2f dec2d : list Z -> Z) its T,
+  iseq dec2f dec2d None its T -> its <> [] -> atys_ok 0 its ->
+  forall rest, rest_ok rest ->
+  (forall f ll fe ib, (length T <= f)%nat ->
+     skip_next dec2f dec2d (S f) (91 :: T ++ 93 :: rest) ll fe ib
+     = Ok (rest, 1 + Z.of_nat (length (islots its)), 97)) /\
+  (forall f before nb fe, (length T <= f)%nat ->
+     scan_arg_val dec2f dec2d (S f) (91 :: T ++ 93 :: rest) before nb fe
+     = Ok (VArr (lty 32 its) (Z.of_nat (length (islots its))) :: islots its, rest)).
+Proof. exact array_reads. Qed.
+
+(* non-vacuity: [1 2 3 4 5 6 9 8 8 8 8 8 8] prints as "[1 ... 6 9 6x8]" *)
+Theorem C10_array_nonvacuous :
+  Forall goodc example_elems /\ homog example_elems /\
+  exists w, print_arg_vals {| lossless := true; prec := 2; linelength := 20; compress := true |}
+    (VArr 105 (Z.of_nat (length example_elems)) :: example_elems) 0
+  = Some ([91; 49; 32; 46; 46; 46; 32; 54; 32; 57; 32; 54; 120; 56; 93], w).
+Proof. exact roundtrip_array_example. Qed.
 
 (* the text forms the printer uses with compression on - values, repetitions
    "NxV", range tails "b ... c" (the explicit form "a b ... c" is the value a
